@@ -71,10 +71,14 @@ def solveOp (op : String) (j : Json) : Except String Json := do
         | some pj => some <$> jRat pj
         | none => pure none
       let cb := match fld? j "cb" with | some (.bool b) => b | _ => false
+      let tol ← match fld? j "ftol" with
+        | some .null | none => pure (XRat.ofRat ((1 : Rat) / 1000000))
+        | some tj => jRat tj
       if op = "solve.wrap" then
         let r ← jResult (← fld j "res")
-        match solve d P s0? prox cb (fun _ => r) with
-        | .error _ => pure (.arr #[rNat 0])
+        match solve d P s0? prox cb tol (fun _ => r) with
+        | .error (.result _) => pure (.arr #[rNat 0])
+        | .error .fixedInfeasible => pure (.arr #[rNat 3])
         | .ok (S, some _) => pure (.arr ([rNat 1, rNat d.rows, rNat d.n] ++ rList d.dim (flat d.n S)).toArray)
         | .ok (S, none) => pure (.arr ([rNat 2, rNat d.rows, rNat d.n] ++ rList d.dim (flat d.n S)).toArray)
       else
